@@ -199,7 +199,7 @@ def run_jobs(jobs, nproc=None, timeout=2400):
     """jobs: list of (callable, args).  Each returns a Result.  One forked process per job, at most nproc at a time.  A process that dies
     (undefined behaviour in a natively executed wrapper, memory cap) or exceeds the timeout yields an error Result: the run then exits 2,
     never 0."""
-    nproc = nproc or min(16, max(1, len(jobs)))
+    nproc = nproc or min(int(os.environ.get("SYMX_NPROC", "16") or 16), max(1, len(jobs)))
     if len(jobs) == 1 or os.environ.get("SYMX_SERIAL"):
         return [_run_job(j) for j in jobs]
     ctx = multiprocessing.get_context("fork")
